@@ -130,7 +130,8 @@ def gen(g, nlogs, tier):
                     cases += [a, k]
         for d in DAYS[1:4]:
             for arg, today in ((fmt(d), datetime.date(2021, 1, 28)), ('today', d), ('yesterday', d + datetime.timedelta(days=1))):
-                tz = r.choice(TZS)
+                # the day window of `summary` is built in the process zone: offsets near the ends of the day matter most
+                tz = r.choice(TZS + ['Etc/GMT+1', 'Etc/GMT+1', 'Etc/GMT-1', 'Etc/GMT+12', 'Etc/GMT-14', 'Asia/Kolkata'])
                 gf = {'today': fmt(today)}
                 if layout != '2006/01/02':
                     gf['dateFormat'] = layout
